@@ -115,11 +115,38 @@ func (p *Program) Scripts() string {
 }
 
 func (w *World) funcs(hs []*Script, spare int) []rux.HandlerFunc {
+	fs := w.ownFuncs(hs, spare)
+	w.mu.Lock()
+	w.lent = append(w.lent, fs)
+	w.mu.Unlock()
+	return fs
+}
+
+// ownFuncs is funcs for the two calls that are documented to keep what they are given (NotFound, NotAllowed).
+func (w *World) ownFuncs(hs []*Script, spare int) []rux.HandlerFunc {
 	fs := make([]rux.HandlerFunc, 0, len(hs)+spare)
 	for _, h := range hs {
 		fs = append(fs, w.Handler(h))
 	}
 	return fs
+}
+
+// reuseLentSlices is the caller going on with ITS slices once registration is over: every handler slice that was
+// handed to Use / Group / GET ... / Route.Use / Resource as a variadic argument is overwritten - elements and spare
+// capacity - with a handler that must never run.
+func (w *World) reuseLentSlices() {
+	poison := func(c *rux.Context) {
+		w.state(c.Req).Tr.Add("A HANDLER FROM A SLICE THE CALLER REUSED AFTER REGISTRATION RAN")
+	}
+	w.mu.Lock()
+	defer w.mu.Unlock()
+	for _, fs := range w.lent {
+		fs = fs[:cap(fs)]
+		for i := range fs {
+			fs[i] = poison
+		}
+	}
+	w.lent = nil
 }
 
 // Apply executes the program against a real router through the public API.
@@ -132,9 +159,9 @@ func (p *Program) Apply(w *World) *rux.Router {
 			case "use":
 				r.Use(w.funcs(s.Hs, s.Spare)...)
 			case "notfound":
-				r.NotFound(w.funcs(s.Hs, s.Spare)...)
+				r.NotFound(w.ownFuncs(s.Hs, s.Spare)...)
 			case "notallowed":
-				r.NotAllowed(w.funcs(s.Hs, s.Spare)...)
+				r.NotAllowed(w.ownFuncs(s.Hs, s.Spare)...)
 			case "group":
 				body := s.Body
 				if s.Reuse != nil && s.Reuse.funcs != nil {
@@ -177,6 +204,7 @@ func (p *Program) Apply(w *World) *rux.Router {
 		}
 	}
 	run(p.Body)
+	w.reuseLentSlices()
 	w.Router = r
 	if p.Hooks.OnPanic != nil {
 		r.OnPanic = w.PanicHook(p.Hooks.OnPanic)
@@ -201,6 +229,15 @@ type Res struct {
 func (c *Res) Index(ctx *rux.Context)  { c.w.Handler(c.index)(ctx) }
 func (c *Res) Show(ctx *rux.Context)   { c.w.Handler(c.show)(ctx) }
 func (c *Res) Delete(ctx *rux.Context) { c.w.Handler(c.del)(ctx) }
+
+// Uses names middleware for an action the controller does not implement (and for a name that is no action at all):
+// it belongs to nothing and must not run anywhere.
+func (c *Res) Uses() map[string][]rux.HandlerFunc {
+	stray := func(ctx *rux.Context) {
+		c.w.state(ctx.Req).Tr.Add("MIDDLEWARE OF AN ACTION THE CONTROLLER DOES NOT IMPLEMENT RAN")
+	}
+	return map[string][]rux.HandlerFunc{"Create": {stray}, "Edit": {stray}, "Nope": {stray}}
+}
 
 // Clone copies a statement tree (scripts are shared, they are immutable); slice-reuse links are remapped to
 // the copies.
